@@ -371,7 +371,12 @@ func (t *Tree) stmt(ctx string, s *Scope) Node {
 	//Validate cardinality, ordering, and arguemnt syntax
 	e := n.check()
 	if e != nil {
-		s, _ := n.ErrorContext()
+		at := Node(n)
+		if se, ok := e.(*stmtError); ok {
+			// (a statement of the module that is out of place)
+			at = se.stmt
+		}
+		s, _ := at.ErrorContext()
 		panic(fmt.Errorf("%s: %s", s, e))
 	}
 
